@@ -156,6 +156,15 @@ fn lockstep(kind: u8, side: Side, fees: bool, seed: u64) -> impl Fn() {
         if !ok || kind == 0 {
             return;
         }
+        if kind == 13 {
+            // withdraw a symbolic amount, then close: the payout crosses "exactly the fees"
+            t.next_block(15);
+            symrt::set_full(true);
+            let b = amount("wd", d, false, 5);
+            t.step(Op::Withdraw { who: ALICE, amount: b });
+            t.step(Op::Close { who: ALICE, limit: Uint128::zero() });
+            return;
+        }
         if kind == 12 {
             // an increase and a reduction at the same fractional leverage, then the close
             t.next_block(15);
@@ -374,7 +383,7 @@ fn lockstep_gen(idx: u64, seed: u64) -> impl Fn() {
 pub fn scenarios(seed: u64) -> Vec<Scenario> {
     let mut v = vec![];
     let d = "twin deployments (native uwasm / cw20, 6 decimals, same parameters), same symbolic history in lock-step; per step: same success, Position records, vAMM state, engine state and per-account balance deltas proved equal";
-    let kinds = [(0u8, "open"), (1, "increase"), (2, "opposite"), (3, "close"), (4, "depwd"), (5, "liquidate"), (6, "close.thin-wallet"), (7, "fund.close"), (8, "fund.opposite"), (9, "fund.withdraw-increase-close"), (10, "fund.liquidate"), (11, "partial-close"), (12, "fractional-leverage")];
+    let kinds = [(0u8, "open"), (1, "increase"), (2, "opposite"), (3, "close"), (4, "depwd"), (5, "liquidate"), (6, "close.thin-wallet"), (7, "fund.close"), (8, "fund.opposite"), (9, "fund.withdraw-increase-close"), (10, "fund.liquidate"), (11, "partial-close"), (12, "fractional-leverage"), (13, "withdraw-close")];
     for (k, kn) in kinds {
         for (side, sn) in [(Side::Buy, "long"), (Side::Sell, "short")] {
             for fees in [false, true] {
